@@ -9,4 +9,4 @@ Extraction "mdl.ml"
   x25_step x25_write x25_sum mcrf4xx
   msg_read msg_write read_backing_after initialize
   sha256 marshal gen_checksum gen_signature
-  dialect_init dlookup reader_read read_all read_all_c stream_left frame_write stream_write writer_init nondec.
+  fix_frame dialect_init dlookup reader_read read_all read_all_c stream_left frame_write stream_write writer_init nondec.
